@@ -290,8 +290,8 @@ def plan_condition_assumptions(ctx, prog):
     def one_call(b, pat):
         cs = [c for c in b.calls if re.search(pat, c.fn or '')]
         return cs[0] if len(cs) == 1 else None
-    SETS = {'plan::not_depend_on': (r'HashSet::<.*>::is_disjoint$', False), 'plan::depend_on': (r'HashSet::<.*>::is_disjoint$', True),
-            'plan::all_depend_on': (r'HashSet::<.*>::is_subset$', False)}
+    SETS = {'plan::not_depend_on': (r'(Hash|BTree)Set::<.*>::is_disjoint$', False), 'plan::depend_on': (r'(Hash|BTree)Set::<.*>::is_disjoint$', True),
+            'plan::all_depend_on': (r'(Hash|BTree)Set::<.*>::is_subset$', False)}
     for fn, (pat, neg) in SETS.items():
         b = prog.body(P + fn + '::{closure#0}')
         if not ctx.anchor(R3, P + fn, b is not None):
